@@ -47,6 +47,19 @@ type stageSpec struct {
 	Files map[string]json.RawMessage `json:"files"`
 }
 
+// stageCtx is handed to stageHooks (registered by property-specific files,
+// e.g. file-writing behaviour for the VDR properties) after the arguments were
+// read and the result computed, before the result is written.
+type stageCtx struct {
+	Name, Phase, ID, MD, Files string
+	Args                      hx.JV
+	SpecRaw                   map[string]json.RawMessage // the whole spec file
+	Result                    *string                    // JSON text about to be written
+	OutFile                   string
+}
+
+var stageHooks []func(c *stageCtx)
+
 var uniqRe = regexp.MustCompile(`\.u[0-9a-f]{10}$`)
 
 func logEvent(format string, a ...interface{}) {
@@ -242,6 +255,17 @@ func stageMain(argv []string) {
 			}
 			h ^= h >> 29
 			time.Sleep(time.Duration(h%max) * time.Millisecond)
+		}
+	}
+	if len(stageHooks) > 0 {
+		var raw map[string]json.RawMessage
+		if b, err := os.ReadFile(os.Getenv("VH_SPEC")); err == nil {
+			json.Unmarshal(b, &raw)
+		}
+		c := &stageCtx{Name: name, Phase: phase, ID: id, MD: md, Files: argv[3], Args: args,
+			SpecRaw: raw, Result: &result, OutFile: outFile}
+		for _, h := range stageHooks {
+			h(c)
 		}
 	}
 	stageFault(&spec, id, name, phase, md, outFile, &result)
